@@ -66,8 +66,43 @@ def job_history(args):
     shared_sregs = {}
     shared_gens = {}
     probes = {"nonempty_mapping": 0, "crash_fired": 0, "crash_in_generate_code": 0}
+    cli_env = {}
+    try:
+        return _job_history(args, slots, outs, shared_kwargs, shared_expect, shared_sregs, shared_gens, probes, cli_env)
+    finally:
+        if cli_env.get("env") is not None:
+            cli_env["env"].cleanup()
+
+
+def _job_history(args, slots, outs, shared_kwargs, shared_expect, shared_sregs, shared_gens, probes, cli_env):
+    from ..crash import CrashTracer
+    from ..pipeline import infer, outcome, render
+    from ..simenv import SimEnv
     for op in args["ops"]:
         kind = op["op"]
+        if kind == "CLIJ":
+            # a JUDGED in-process CLI command; all commands of a history work in ONE directory (same paths, the files
+            # are rewritten in between).  Outcome = exit status + text after the header (scratch path masked).
+            from ..scenario import split_header
+            from ..simenv import Events, FaultPlan
+            env = cli_env.get("env")
+            if env is None:
+                env = cli_env["env"] = SimEnv(op["spec"])
+                rec = env.run()
+            else:
+                env.apply_files(op["spec"]["files"])
+                env.spec = dict(op["spec"], faults=None, crash_at=None)
+                env.events = Events()
+                env.plan = FaultPlan(None, env.events)
+                env.glob_calls = []
+                rec = env.run(reuse_dir=True)
+            if rec["status"] == 0:
+                outs.append({"text": split_header(rec["stdout"])[1].replace(env.dir, "<DIR>")})
+            else:
+                outs.append({"exc": (rec["exc"] or {}).get("type"), "msg": str((rec["exc"] or {}).get("msg", "")).replace(env.dir, "<DIR>")[:200],
+                             "status": rec["status"]})
+            probes["cli_commands_judged"] = probes.get("cli_commands_judged", 0) + 1
+            continue
         if kind == "CLI":
             env = SimEnv(op["spec"])
             try:
@@ -311,12 +346,26 @@ def make_history(seed, i, max_ops=4):
             tail.append(r)
         ops += [g1, g2, *tail[:rng.randint(1, 2)]]
         generated += [s1, s2]
+    has_clij = False
+    if not twin and not crash_then_render and rng.random() < 0.06 and not any(o["op"] == "CLI" for o in ops):
+        # targeted order: two JUDGED in-process CLI commands on the same paths; the files are rewritten in between (the
+        # second command must mean what it means in a fresh process: nothing remembered per path).  Both commands have
+        # the same options and such a history holds no other CLI command: what --datetime / --disable-... do to the
+        # process-global default registry is documented CLI behaviour (the property's "state" entry), not judged here
+        has_clij = True
+        from ..scenario import cli_spec, gen_scenario
+        from .c16 import older_version
+        sc = gen_scenario(seeds.derive(seed, PROP, i, "clij"), want_out=False)
+        now = cli_spec(sc)
+        before = dict(now, files={k: (dict(v, text=older_version(sc["format"], v["text"])) if "text" in v else v)
+                                  for k, v in now["files"].items()})
+        ops += [{"op": "CLIJ", "spec": before}, {"op": "CLIJ", "spec": now}]
     if twin and n_ops >= 4:
         ops += [render_op(0), gen_op(1), render_op(1)]
         generated.append(1)
     while len(ops) < n_ops:
         r = rng.random()
-        if r < 0.12:
+        if r < 0.12 and not has_clij:
             ops.append(cli_op())
         elif r < 0.30:
             s = rng.randrange(n_slots)
@@ -369,6 +418,10 @@ def judged_indices(ops, outcomes):
     chain = {}
     poisoned = set()  # slots whose registry was left half-extended by a failing / crashing EXTEND
     for i, (op, o) in enumerate(zip(ops, outcomes)):
+        if op["op"] == "CLIJ":
+            if "text" in o or "exc" in o:
+                out.append((i, []))
+            continue
         if op["op"] == "GEN":
             if "crash" not in o:
                 out.append((i, []))
@@ -406,7 +459,7 @@ def nontrivial(ops, i, dep, outcomes):
     for j in range(i):
         if j in (dep or []):
             continue
-        if ops[j]["op"] == "CLI" or "crash" in outcomes[j]:
+        if ops[j]["op"] in ("CLI", "CLIJ") or "crash" in outcomes[j]:
             return True
         if ops[j].get("slot") == ops[i].get("slot"):
             return True
@@ -529,6 +582,7 @@ def run(ctx):
                 r["probes"].get("shared_string_registry_generations", 0)
             stats["shared_generator_generations"] = stats.get("shared_generator_generations", 0) + \
                 r["probes"].get("shared_generator_generations", 0)
+            stats["cli_commands_judged"] = stats.get("cli_commands_judged", 0) + r["probes"].get("cli_commands_judged", 0)
             gens = [o for o in h if o["op"] == "GEN"]
             stats["twin_slots_unicode_flip"] += any(a["models"] == b["models"] and a["slot"] != b["slot"] for a in gens for b in gens)
             rs = [o for o in h if o["op"] == "RENDER"]
